@@ -38,6 +38,25 @@ pub fn mem_copy_opt(
     Ok(modified)
 }
 
+/// Is this a copy of a memory range onto itself? That is the case if both pointers must alias, or if
+/// they refer (possibly through block arguments) to the same single symbol and the whole symbol is copied.
+fn is_self_copy(context: &Context, dst_ptr: Value, src_ptr: Value, byte_len: u64) -> bool {
+    if memory_utils::must_alias(context, dst_ptr, byte_len, src_ptr, byte_len) {
+        return true;
+    }
+    let single_symbol = |ptr: Value| match get_referred_symbols(context, ptr) {
+        ReferredSymbols::Complete(syms) if syms.len() == 1 => syms.into_iter().next(),
+        _ => None,
+    };
+    match (single_symbol(dst_ptr), single_symbol(src_ptr)) {
+        (Some(dst_sym), Some(src_sym)) if dst_sym == src_sym => dst_sym
+            .get_type(context)
+            .get_pointee_type(context)
+            .is_some_and(|ty| ty.size(context).in_bytes() == byte_len),
+        _ => false,
+    }
+}
+
 /// Copying a memory range onto itself (e.g., `a = a` after copy propagation) does nothing,
 /// but the FuelVM panics on an MCP with overlapping ranges, so such copies must not reach it.
 fn remove_self_copies(context: &mut Context, function: Function) -> bool {
@@ -45,7 +64,7 @@ fn remove_self_copies(context: &mut Context, function: Function) -> bool {
         .instruction_iter(context)
         .filter_map(|(_, inst)| {
             let (dst_ptr, src_ptr, byte_len) = deconstruct_memcpy(context, inst)?;
-            memory_utils::must_alias(context, dst_ptr, byte_len, src_ptr, byte_len).then_some(inst)
+            is_self_copy(context, dst_ptr, src_ptr, byte_len).then_some(inst)
         })
         .collect();
     if to_delete.is_empty() {
@@ -1375,7 +1394,7 @@ fn copy_prop_reverse(
             continue;
         };
 
-        if memory_utils::must_alias(context, dst_ptr, byte_len, src_ptr, byte_len) {
+        if is_self_copy(context, dst_ptr, src_ptr, byte_len) {
             to_delete.insert(inst);
         }
     }
